@@ -6,7 +6,7 @@ use idlc_mir::Node;
 use idlc_codegen::MINKIDL_HEADER_COMMENT;
 
 use crate::{
-    globals::{emit_const, emit_include, emit_struct},
+    globals::{emit_const, emit_include, emit_struct_once, local_structs},
     interface::{emit_interface_impl, emit_interface_invoke},
 };
 
@@ -36,6 +36,8 @@ impl idlc_codegen::SplitInvokeGenerator for Generator {
             }
         }
 
+        let local = local_structs(mir);
+        let mut emitted = Vec::new();
         for node in &mir.nodes {
             match node.as_ref() {
                 Node::Include(i) => {
@@ -45,7 +47,7 @@ impl idlc_codegen::SplitInvokeGenerator for Generator {
                     result.push_str(&emit_const(c));
                 }
                 Node::Struct(s) => {
-                    result.push_str(&emit_struct(s.as_ref()));
+                    emit_struct_once(s.as_ref(), &local, &mut emitted, &mut result);
                 }
                 Node::Interface(i) => {
                     result.push_str(&emit_interface_impl(i, self.is_no_typed_objects));
